@@ -14,7 +14,7 @@ CONSTANTS Payloads, MaxLive, MaxMade,
 VARIABLES made,     \* number of nodes created so far; -1 encoded as "not constructed": built = FALSE
           built,
           seq,      \* node ids, head first
-          pay,      \* id -> payload for ids 1..made
+          pay,      \* id -> payload for ids 1..made (0 once the node has left the list: it no longer matters)
           lenr,     \* what len() reports (kept separately so that the negative control can break it)
           last
 vars == <<made, built, seq, pay, lenr>>
@@ -51,14 +51,16 @@ Extend(o) == /\ built /\ UNCHANGED built
 PreExtend(o) == /\ built /\ UNCHANGED built
                 /\ made' = made + Len(o.ps) /\ pay' = PayExt(o.ps) /\ seq' = Rev(NewIds(Len(o.ps))) \o seq
                 /\ lenr' = lenr + Len(o.ps) /\ Ret(o, <<>>)
-Remove(o) == /\ built /\ o.n \in Live /\ Keep
+Remove(o) == /\ built /\ o.n \in Live /\ UNCHANGED <<made, built>> /\ pay' = [pay EXCEPT ![o.n] = 0]
              /\ seq' = Drop(seq, o.n) /\ lenr' = lenr - 1 /\ Ret(o, <<>>)
-PopBack(o) == /\ built /\ Keep
-              /\ IF seq = <<>> THEN UNCHANGED <<seq, lenr>> /\ Ret(o, <<>>)
-                 ELSE seq' = SubSeq(seq, 1, Len(seq) - 1) /\ lenr' = lenr - 1 /\ Ret(o, <<pay[seq[Len(seq)]]>>)
-PopFront(o) == /\ built /\ Keep
-               /\ IF seq = <<>> THEN UNCHANGED <<seq, lenr>> /\ Ret(o, <<>>)
-                  ELSE seq' = Tail(seq) /\ lenr' = lenr - 1 /\ Ret(o, <<pay[seq[1]]>>)
+PopBack(o) == /\ built /\ UNCHANGED <<made, built>>
+              /\ IF seq = <<>> THEN UNCHANGED <<seq, lenr, pay>> /\ Ret(o, <<>>)
+                 ELSE /\ seq' = SubSeq(seq, 1, Len(seq) - 1) /\ lenr' = lenr - 1 /\ Ret(o, <<pay[seq[Len(seq)]]>>)
+                      /\ pay' = [pay EXCEPT ![seq[Len(seq)]] = 0]
+PopFront(o) == /\ built /\ UNCHANGED <<made, built>>
+               /\ IF seq = <<>> THEN UNCHANGED <<seq, lenr, pay>> /\ Ret(o, <<>>)
+                  ELSE /\ seq' = Tail(seq) /\ lenr' = lenr - 1 /\ Ret(o, <<pay[seq[1]]>>)
+                       /\ pay' = [pay EXCEPT ![seq[1]] = 0]
 MoveToFront(o) == /\ built /\ o.n \in Live /\ Keep
                   /\ seq' = <<o.n>> \o Drop(seq, o.n)
                   /\ lenr' = (IF seq[1] = o.n THEN lenr ELSE MovedLen) /\ Ret(o, <<>>)
@@ -116,7 +118,7 @@ TypeOK == /\ Cardinality(Live) = Len(seq)          \* a node is linked at most o
           /\ DOMAIN pay = 1..made
 LenIsCount == lenr = Len(seq)
 \* moves and rotation permute, never add or drop
-MovesPermute == [][ last'.op.op \in {"move_to_front", "move_to_back", "move_after", "rotate"} => Live' = Live ]_vars
+MovesPermute == [][ last'.op.op \in {"move_to_front", "move_to_back", "move_after", "rotate"} => Live' = Live ]_<<vars, last>>
 
 \* --- binding ----------------------------------------------------------------------------------
 \* forward walk over next-links from head, backward walk over prev-links from tail, reported length
